@@ -376,6 +376,46 @@ def check_w4(chk, m, fn, wh, fmt_arg, states):
                "fields modified besides the three size fields: %s" % extra, fs.loc, fs.name)
 
 
+def check_decode_total(chk, m):
+    """W8.decode-total: the structure a successful decode leaves behind depends on the input only - every byte of *wh is written
+    on every success path (the whole-structure memset, member stores, unpacked arrays, copies).  A member the decoder neither
+    clears nor stores keeps what the caller's structure held before: the same bytes then decode to different structures, and a
+    stale fact id makes the encoder emit a chunk the input never had."""
+    fn = m.fn("rf_wavheader_decode")
+    wh = wav.wh_index(fn)
+    table, total = wav.field_table(m)
+    n = 0
+    for p in wav.success_paths(fn, m):
+        n += 1
+        cov = [False] * total
+
+        def mark(ptr, size):
+            root, off, var = ptr_parts(ptr)
+            if root == ("arg", wh) and not var and size:
+                for j in range(max(0, off), min(total, off + size)):
+                    cov[j] = True
+        for e in p.events:
+            if e.kind == "store":
+                mark(e.ptr, e.size)
+            elif e.kind in ("memset", "memcpy") and e.extra is not None and e.extra[0] == "c":
+                mark(e.ptr, e.extra[2])
+            elif e.kind == "call" and e.callee == "rf_unpack_bytes" and e.args[1] != ("null",) and e.args[2][0] == "c":
+                mark(e.args[1], e.args[2][2])
+        # padding bytes are not members
+        member = [False] * total
+        for f, (o, sz) in table.items():
+            for j in range(o, min(total, o + sz)):
+                member[j] = True
+        miss = [j for j in range(total) if member[j] and not cov[j]]
+        names = sorted(set(f for f, (o, sz) in table.items() if any(o <= j < o + sz for j in miss)))
+        chk.ob("W8.decode-total", "rf_wavheader_decode " + "->".join(b.lstrip("%") for b in p.blocks)[:100], not miss,
+               "every member of *wh is written on this successful path" if not miss else
+               "member(s) %s keep whatever the caller's structure held before the call on this successful path: the decoded structure "
+               "is not a function of the input (a stale fact chunk id is re-encoded as a chunk the input never had)" % ", ".join(names[:6]),
+               p.ret_inst.loc, fn.name)
+    chk.expect("W8", "successful decoder paths", n, 4)
+
+
 def check_w7(chk, m):
     """W7: the RIFF-size test of rf_wavheader_validate and rf_wavheader_decode accepts exactly the headers with
     chunk_size >= 12 + fmt_chunk_size + fact_chunk_size, decided for all 32-bit chunk sizes (so also for files of 2 to 4 GiB)
@@ -626,6 +666,8 @@ def run(chk):
     check_w5(chk, m, states)
     check_w6(chk, m, states, E)
     check_w7(chk, m)
+    chk.rule("W8", "rf_wavheader_decode writes every member of the structure on every successful path")
+    check_decode_total(chk, m)
     # the round trip rests on the cursor functions transferring every item that fits, whole and in the stated byte order,
     # and nothing else (C12's rules on pack.c)
     from . import C12
